@@ -13,9 +13,14 @@
 //!   * `generate_indexed_market_data_subscription_batches`, `index_market_data_subscription_batches` on a
 //!     real `IndexedInstruments`;
 //!   * `StreamBuilder::{subscribe, init}`, `MultiStreamBuilder::{add, init}`, `init_market_stream` on an
-//!     empty list: `init` is awaited only when the FIRST pushed future fails before the network
-//!     (unsupported subscription / empty list; `try_join_all` polls in order and stops at the first
-//!     error), decided here with the real static `validate`;
+//!     empty list: `init` is really AWAITED on every `sbinit` / `minit`. What is compared is what its FIRST
+//!     poll returns while every name lookup is held back (the gate of c13d.rs `drive`: the runtime has one
+//!     blocking thread, occupied until the first poll has returned): `Ready(Ok)` = `res ok`, `Ready(Err)` =
+//!     `res err <Display>` (a future failed before the network — `try_join_all` polls EVERY future of a
+//!     small list in one pass and returns the first `Err` of the pass, also behind a future that is pending
+//!     on its connection attempt), `Pending` = `res network` (independent of whether a network exists).
+//!     The future is then awaited to its end (offline: the lookup fails at once, `Err(Socket("WebSocket
+//!     error: ..")`), reported in a `#` comment line only;
 //!   * `Map::{from_iter, find, find_mut}`.
 //!
 //! REPLICATED (the code is inlined in the async `init` behind the network): the per-batch grouping
@@ -96,7 +101,7 @@ use barter_integration::{Validator, subscription::SubscriptionId};
 use chrono::{DateTime, TimeZone, Utc};
 use futures::StreamExt;
 use rust_decimal::Decimal;
-use std::marker::PhantomData;
+use std::{marker::PhantomData, sync::atomic::{AtomicBool, Ordering}, time::Duration};
 use tokio_stream::wrappers::UnboundedReceiverStream;
 use vh::*;
 
@@ -395,25 +400,6 @@ enum SB {
     Lq(Out4<Liquidations>),
 }
 
-/// what the first polled future of a builder does: decided with the REAL static `validate`
-#[derive(Clone, Debug, PartialEq)]
-enum First {
-    /// no future at all
-    None,
-    /// fails before the network
-    Fails,
-    /// would connect
-    Network,
-}
-
-fn first_of(c: usize, k: usize, insts: &[Inst]) -> First {
-    if insts.iter().any(|i| stat_validate_dyn(c, k, i.clone()).is_err()) || insts.is_empty() {
-        First::Fails
-    } else {
-        First::Network
-    }
-}
-
 macro_rules! subscribe_arm {
     ($b:expr, $e:ty, $k:expr, $insts:expr) => {
         $b.subscribe(
@@ -481,6 +467,66 @@ fn join<T: std::fmt::Display>(xs: &[T]) -> String {
 
 fn rt() -> tokio::runtime::Runtime {
     tokio::runtime::Builder::new_current_thread().enable_time().build().unwrap()
+}
+
+/// set once an `init` that was pending on the network did not return within the guard: later ops then
+/// stop after the first poll (a resolver that hangs must not cost 5 s per op)
+static NETWORK_HANGS: AtomicBool = AtomicBool::new(false);
+
+/// Awaits a builder's REAL `init`. Returns what the FIRST poll returned (`None` = `Pending`) and a note
+/// on how the future ended afterwards.
+///
+/// Scheduling of the environment (as in c13d.rs `drive`): a connection attempt starts with a name lookup on
+/// tokio's blocking pool. The runtime has ONE blocking thread and a gate task occupies it until the first
+/// poll of `init` has returned, so no lookup can complete during that poll: what the first poll returns is
+/// decided by the code under test alone, with or without a network.
+fn drive<T>(fut: impl std::future::Future<Output = Result<T, DataError>>) -> (Option<Result<T, DataError>>, String) {
+    let rt = tokio::runtime::Builder::new_current_thread()
+        .enable_all()
+        .max_blocking_threads(1)
+        .build()
+        .unwrap();
+    rt.block_on(async {
+        let (open_gate, gate) = std::sync::mpsc::channel::<()>();
+        let gate_task = tokio::task::spawn_blocking(move || {
+            let _ = gate.recv();
+        });
+        tokio::pin!(fut);
+        let first = futures::poll!(fut.as_mut());
+        drop(open_gate);
+        let _ = gate_task.await;
+        match first {
+            std::task::Poll::Ready(out) => (Some(out), String::new()),
+            std::task::Poll::Pending => {
+                if NETWORK_HANGS.load(Ordering::Relaxed) {
+                    return (None, "not awaited further (an earlier init hung)".into());
+                }
+                let note = match tokio::time::timeout(Duration::from_secs(5), fut).await {
+                    Err(_) => {
+                        NETWORK_HANGS.store(true, Ordering::Relaxed);
+                        "did not return within 5 s (resolver hangs?)".to_string()
+                    }
+                    Ok(Ok(_)) => "then returned Ok (a network is present)".to_string(),
+                    Ok(Err(e)) => format!("then returned Err: {e}"),
+                };
+                (None, note)
+            }
+        }
+    })
+}
+
+fn init_obs(first: Option<Result<Vec<usize>, DataError>>, note: String, lines: &mut Vec<String>) {
+    match first {
+        Some(Ok(mut ks)) => {
+            ks.sort();
+            lines.push(format!("res ok {}", join(&ks)));
+        }
+        Some(Err(e)) => lines.push(format!("res err {}", data_err(&e))),
+        None => {
+            lines.push("res network".into());
+            lines.push(format!("# init pending on the network after its first poll; {note}"));
+        }
+    }
 }
 
 // ------------------------------------------------------------------------------------------------ source text
@@ -792,8 +838,8 @@ fn run() {
     run_cases(|case, lines| {
         let mut ii: Option<IndexedInstruments> = None;
         let mut ds: DS = ds_empty();
-        let mut sb: Option<(SB, First)> = None;
-        let mut multi: Option<(MultiStreamBuilder<MultiOut>, First)> = None;
+        let mut sb: Option<SB> = None;
+        let mut multi: Option<MultiStreamBuilder<MultiOut>> = None;
         let mut map: Map<usize> = Map::from_iter(std::iter::empty());
         for op in case.ops.iter() {
             lines.push("@".into());
@@ -1028,57 +1074,51 @@ fn run() {
                         _ => panic!("bad-op builder kind"),
                     };
                     sb_obs(&b, lines);
-                    sb = Some((b, First::None));
+                    sb = Some(b);
                 }
                 "sub" => {
                     let c: usize = a[0].parse().unwrap();
                     let insts: Vec<Inst> = a[1..].iter().map(|t| parse_inst(t)).collect();
-                    let (b, first) = sb.take().expect("sb first");
+                    let b = sb.take().expect("sb first");
                     let k = sb_kind(&b);
                     match sb_subscribe(b, c, &insts) {
                         Ok(b) => {
                             assert!(SEL[c][k]);
-                            let first = if first == First::None { first_of(c, k, &insts) } else { first };
                             sb_obs(&b, lines);
-                            sb = Some((b, first));
+                            sb = Some(b);
                         }
                         Err(b) => {
                             assert!(!SEL[c][k]);
                             lines.push("nosel".into());
-                            sb = Some((b, first));
+                            sb = Some(b);
                         }
                     }
                 }
                 "sbinit" => {
-                    let (b, first) = sb.take().expect("sb first");
-                    match first {
-                        First::Network => lines.push("res network".into()),
-                        _ => {
-                            let r: Result<Vec<usize>, DataError> = match b {
-                                SB::T(b) => rt().block_on(b.init()).map(|s| s.streams.keys().map(|e| exch_no(*e)).collect()),
-                                SB::L1(b) => rt().block_on(b.init()).map(|s| s.streams.keys().map(|e| exch_no(*e)).collect()),
-                                SB::L2(b) => rt().block_on(b.init()).map(|s| s.streams.keys().map(|e| exch_no(*e)).collect()),
-                                SB::Lq(b) => rt().block_on(b.init()).map(|s| s.streams.keys().map(|e| exch_no(*e)).collect()),
-                            };
-                            match r {
-                                Ok(mut ks) => {
-                                    ks.sort();
-                                    lines.push(format!("res ok {}", join(&ks)));
-                                }
-                                Err(e) => lines.push(format!("res err {}", data_err(&e))),
-                            }
-                        }
+                    // the REAL `StreamBuilder::init`, awaited
+                    let b = sb.take().expect("sb first");
+                    macro_rules! keys {
+                        ($b:expr) => {
+                            drive(async { $b.init().await.map(|s| s.streams.keys().map(|e| exch_no(*e)).collect::<Vec<usize>>()) })
+                        };
                     }
+                    let (first, note) = match b {
+                        SB::T(b) => keys!(b),
+                        SB::L1(b) => keys!(b),
+                        SB::L2(b) => keys!(b),
+                        SB::Lq(b) => keys!(b),
+                    };
+                    init_obs(first, note, lines);
                 }
                 "mb" => {
                     let m = MultiStreamBuilder::<MultiOut>::new();
                     lines.push("chans".into());
                     lines.push("futs 0".into());
-                    multi = Some((m, First::None));
+                    multi = Some(m);
                 }
                 "madd" => {
-                    let (m, mfirst) = multi.take().expect("mb first");
-                    let (b, first) = sb.take().expect("sb first");
+                    let m = multi.take().expect("mb first");
+                    let b = sb.take().expect("sb first");
                     let m = match b {
                         SB::T(b) => m.add(b),
                         SB::L1(b) => m.add(b),
@@ -1089,22 +1129,14 @@ fn run() {
                     ks.sort();
                     lines.push(format!("chans {}", join(&ks)));
                     lines.push(format!("futs {}", m.futures.len()));
-                    let mfirst = if mfirst == First::None { first } else { mfirst };
-                    multi = Some((m, mfirst));
+                    multi = Some(m);
                 }
                 "minit" => {
-                    let (m, first) = multi.take().expect("mb first");
-                    match first {
-                        First::Network => lines.push("res network".into()),
-                        _ => match rt().block_on(m.init()) {
-                            Ok(s) => {
-                                let mut ks: Vec<usize> = s.streams.keys().map(|e| exch_no(*e)).collect();
-                                ks.sort();
-                                lines.push(format!("res ok {}", join(&ks)));
-                            }
-                            Err(e) => lines.push(format!("res err {}", data_err(&e))),
-                        },
-                    }
+                    // the REAL `MultiStreamBuilder::init`, awaited
+                    let m = multi.take().expect("mb first");
+                    let (first, note) =
+                        drive(async { m.init().await.map(|s| s.streams.keys().map(|e| exch_no(*e)).collect::<Vec<usize>>()) });
+                    init_obs(first, note, lines);
                 }
                 "empty" => {
                     // `init_market_stream` on an empty list
@@ -1386,18 +1418,22 @@ fn generate(seed: u64, n_cases: usize, tier: &str) {
                 }
             }
             8 => {
-                // StreamBuilder / MultiStreamBuilder up to the network
+                // StreamBuilder / MultiStreamBuilder: `init` is awaited. Every subscribe call fails before the
+                // network with probability 30 % (an instrument kind the connector rejects, or no subscription
+                // at all), so the first failing future is the first, a later one, or none; 4 %: one builder
+                // with 31-33 calls (`try_join_all` switches to `FuturesOrdered` above 30 futures)
                 let use_multi = rng.chance(50);
                 if use_multi {
                     out.line("mb");
                 }
                 let nbuilders = if use_multi { rng.range(1, 3) } else { 1 };
+                let big = rng.chance(4);
                 for bi in 0..nbuilders {
                     let k = *rng.pick(&[0usize, 0, 0, 1, 2, 4]);
                     out.line(format!("sb {k}"));
-                    let nsubs = rng.range(if bi == 0 { 1 } else { 0 }, 3);
+                    let nsubs = if big && bi == 0 { rng.range(31, 33) } else { rng.range(if bi == 0 { 1 } else { 0 }, 3) };
                     for si in 0..nsubs {
-                        let c = if rng.chance(85) {
+                        let c = if rng.chance(if big { 100 } else { 85 }) {
                             // a connector with a selector for this kind
                             loop {
                                 let c = rng.below(15) as usize;
@@ -1408,26 +1444,38 @@ fn generate(seed: u64, n_cases: usize, tier: &str) {
                         } else {
                             rng.below(15) as usize
                         };
-                        // the first subscribe of the first builder mostly fails before the network
-                        let fail_first = bi == 0 && si == 0 && rng.chance(85);
+                        let fails = if big { (si < 2 && rng.chance(40)) || rng.chance(3) } else { rng.chance(30) };
                         let mut insts: Vec<String> = vec![];
-                        if !(fail_first && rng.chance(30)) {
-                            for _ in 0..rng.range(1, 4) {
+                        if !(fails && rng.chance(30)) {
+                            for _ in 0..rng.range(1, if big { 1 } else { 4 }) {
                                 insts.push(gen_inst(&mut rng, nb));
                             }
-                            if fail_first {
-                                // an instrument kind the connector does not support
-                                let bad = CLASS_TOKS
-                                    .iter()
-                                    .find(|ik| !exchange_supports_instrument_kind(IDS[c], &parse_ik(ik)))
-                                    .copied();
-                                if let Some(ik) = bad {
-                                    let pos = rng.below(insts.len() as u64 + 1) as usize;
-                                    insts.insert(pos, format!("{}/0/{ik}", rng.below(nb)));
+                            // an instrument kind the connector does not support (where there is one)
+                            let bad = CLASS_TOKS
+                                .iter()
+                                .find(|ik| !exchange_supports_instrument_kind(IDS[c], &parse_ik(ik)))
+                                .copied();
+                            // ... and never by accident: replace what the connector rejects
+                            let good = CLASS_TOKS
+                                .iter()
+                                .find(|ik| exchange_supports_instrument_kind(IDS[c], &parse_ik(ik)))
+                                .copied()
+                                .expect("every connector supports some instrument kind");
+                            if !fails || bad.is_none() {
+                                if !rng.chance(5) {
+                                    for t in insts.iter_mut() {
+                                        let ik = t.rsplit('/').next().unwrap().to_string();
+                                        if !exchange_supports_instrument_kind(IDS[c], &parse_ik(&ik)) {
+                                            *t = format!("{}/{good}", &t[..t.len() - ik.len() - 1]);
+                                        }
+                                    }
                                 }
+                            } else if let Some(ik) = bad {
+                                let pos = rng.below(insts.len() as u64 + 1) as usize;
+                                insts.insert(pos, format!("{}/0/{ik}", rng.below(nb)));
                             }
                         }
-                        out.line(format!("sub {c} {}", insts.join(" ")));
+                        out.line(format!("sub {c} {}", insts.join(" ")).trim_end().to_string());
                     }
                     if use_multi {
                         out.line("madd");
